@@ -31,6 +31,13 @@ Theorem C02_conversion_round_trip : forall c x, fits c x -> sem c (c_form c x) =
 Proof. exact sem_c_form. Qed.
 Print Assumptions C02_conversion_round_trip.
 
+(* results: the conversion back is the inverse of the conversion in *)
+Theorem C02_result_round_trip : forall z s id,
+  sem Cast (rsem RCastBack (XEnum z)) = XEnum z /\ sem StringFrom (rsem RCStr (XStr s)) = XStr s /\
+  sem ShadowAddr (rsem RShadow (XObjPtr id)) = XObjPtr id /\ sem Direct (rsem RDirect (XNum z)) = XNum z.
+Proof. exact result_round_trip. Qed.
+Print Assumptions C02_result_round_trip.
+
 Example C02_example : wrapper_ok ex_w = true /\
   received ex_w (caller_env (w_params ex_w) [XNum 7; XEnum 5; XStr [104%N; 105%N]; XObj 3]) = [XNum 7; XEnum 5; XStr [104%N; 105%N]; XObj 3].
 Proof. exact ex_w_delivers. Qed.
